@@ -2,8 +2,9 @@ import BfeVerif.C48.Model
 namespace BfeVerif.C48
 
 theorem specOf_step (i : Nat) (r : Bool) (p d : List Elem) :
-    (⟨(specOf (i + 1) p d).ret, i :: (specOf (i + 1) p d).calls,
-      if (specOf (i + 1) p d).calls.isEmpty then (if r then some i else none) else (specOf (i + 1) p d).res⟩ : ChainRes)
+    ({ ret := (specOf (i + 1) p d).ret, calls := i :: (specOf (i + 1) p d).calls,
+       res := if (specOf (i + 1) p d).calls.isEmpty then (if r then some i else none) else (specOf (i + 1) p d).res,
+       boom := (specOf (i + 1) p d).boom } : ChainRes)
       = specOf i (.f vGoOn r :: p) d := by
   cases d with
   | nil =>
@@ -15,6 +16,7 @@ theorem specOf_step (i : Nat) (r : Bool) (p d : List Elem) :
       | none => simp
       | some l => cases l with
         | bad => simp
+        | boom => simp
         | f v b => cases b <;> simp <;> omega
   | cons e ds =>
     cases e with
@@ -27,7 +29,10 @@ theorem specOf_step (i : Nat) (r : Bool) (p d : List Elem) :
         | none => simp
         | some l => cases l with
           | bad => simp
+          | boom => simp
           | f v b => cases b <;> simp <;> omega
+    | boom =>
+      simp [specOf, List.range'_succ]
     | f v' r' =>
       simp only [specOf, List.length_cons, List.range'_succ]
       cases r' <;> simp <;> omega
@@ -39,6 +44,7 @@ theorem runChain_eq_spec (c : List Elem) : ∀ i, runChain i c = specChainFrom i
     intro i
     cases e with
     | bad => simp [runChain, specChainFrom, specOf, isGoOn]
+    | boom => simp [runChain, specChainFrom, specOf, isGoOn]
     | f v r =>
       by_cases hv : v = vGoOn
       · subst hv
